@@ -1,6 +1,7 @@
 import Srctools.Wire
 import Srctools.Model.C06
 import Srctools.Model.C06Text
+import Srctools.Model.C06Hist
 /-! Driver for the C06 model (VMF export / parse at the keyvalues-tree level).
 requests (text = arrays of code points, KV = [0,name,value] | [1,name,[children]]):
   {"op":"export","opts":{"minimal":b,"multiblend":b,"inc":b},"map":MAP}  → {"tree":[KV…]}
@@ -8,6 +9,7 @@ requests (text = arrays of code points, KV = [0,name,value] | [1,name,[children]
   {"op":"text","opts":…,"map":MAP}                                         → {"text":[cp…]}   (exportText)
   {"op":"project","opts":…,"map":MAP}                                     → {"map":MAP}
   {"op":"roundtrip","opts":…,"map":MAP}   parseTree true (exportTree o m)  → {"ok":MAP} | {"err":…}
+  {"op":"after","opts":…,"map":MAP}       afterExport o m (the live value when export returns) → {"map":MAP}
 MAP is the structure produced by harness/c06_gen.dump_map.
 -/
 open Lean C06
@@ -245,6 +247,10 @@ def handle (j : Json) : Except String Json := do
     let o ← optsOf (← fld j "opts")
     let m ← mapOf (← fld j "map")
     pure (Json.mkObj [("map", jmap (project o m))])
+  | "after" =>
+    let o ← optsOf (← fld j "opts")
+    let m ← mapOf (← fld j "map")
+    pure (Json.mkObj [("map", jmap (afterExport o m))])
   | "roundtrip" =>
     let o ← optsOf (← fld j "opts")
     let m ← mapOf (← fld j "map")
